@@ -44,7 +44,7 @@ def make_config(rng: random.Random):
                blocksize=rng.choice([None, None, 16, 64, 100, 256, 512, 48]), ovr_blocksize=rng.choice([None, None, 16, 64]), overviews=ovr, windowed=rng.random() < 0.25,
                intermediate=rng.choice([False, False, True, "zstd", {"compress": "lzw"}]), dest=rng.choice(["file", "file", "mem"]), existing=rng.choice([None, None, "no-overwrite", "overwrite"]),
                api=rng.choice(["write_cog", "write_cog", "layers"]), data_seed=rng.randint(0, 10**6), nodata_via=rng.choice(["attrs", "attrs", "kw", "kw-over-attrs"]), data_kind=rng.choice(["random", "patchy", "patchy", "constant"]),
-               ambient_env=rng.choice([None, None, None, {"GDAL_DISABLE_READDIR_ON_OPEN": "EMPTY_DIR"}, {"GDAL_DISABLE_READDIR_ON_OPEN": "TRUE", "GDAL_CACHEMAX": 64}, {"GDAL_NUM_THREADS": "2", "CPL_DEBUG": "OFF"}]))
+               dest_as=rng.choice(["str", "Path"]), ambient_env=rng.choice([None, None, None, {"GDAL_DISABLE_READDIR_ON_OPEN": "EMPTY_DIR"}, {"GDAL_DISABLE_READDIR_ON_OPEN": "TRUE", "GDAL_CACHEMAX": 64}, {"GDAL_NUM_THREADS": "2", "CPL_DEBUG": "OFF"}]))
     if isinstance(ovr, list):
         # GDAL refuses level lists that collapse the image to 1x1 more than once: keep levels that leave >= 2 px on the longer side
         ovr = [L for L in ovr if max(ny, nx) / L >= 2]
@@ -200,14 +200,19 @@ def run_config(mon: Monitor, cfg, workdir: str) -> None:
         if cfg["existing"] == "overwrite":
             kw["overwrite"] = True
 
+    # destinations are handed over as str or as pathlib.Path (both documented)
+    import pathlib
+
+    fn_arg = pathlib.Path(fn) if cfg.get("dest_as") == "Path" else fn
+
     def go():
         if cfg["api"] == "layers":
             layers = [xx] + (ext or [])
             kw2 = {k: v for k, v in kw.items() if k != "overview_levels"}
-            return write_cog_layers(layers, fn if cfg["dest"] == "file" else ":mem:", **kw2)
+            return write_cog_layers(layers, fn_arg if cfg["dest"] == "file" else ":mem:", **kw2)
         if cfg["dest"] == "mem":
             return to_cog(xx, overviews=ext, **kw) if ext else to_cog(xx, **kw)
-        return write_cog(xx, fn, overviews=ext, **kw) if ext else write_cog(xx, fn, **kw)
+        return write_cog(xx, fn_arg, overviews=ext, **kw) if ext else write_cog(xx, fn_arg, **kw)
 
     try:
         with FsAudit() as audit:
@@ -290,6 +295,10 @@ def run_config(mon: Monitor, cfg, workdir: str) -> None:
 
 
 PINNED = [
+    # pathlib.Path destination x existing file x overwrite=False, on the supplied-overviews path and on the ordinary one (C15-6)
+    dict(ny=40, nx=50, layout="YX", ns=1, dtype="uint16", nodata=None, crs="EPSG:3857", rotated=False, blocksize=None, ovr_blocksize=None, overviews="external", windowed=False, intermediate=False, dest="file", existing="no-overwrite", api="write_cog", data_seed=26, dest_as="Path"),
+    dict(ny=40, nx=50, layout="YX", ns=1, dtype="uint16", nodata=None, crs="EPSG:3857", rotated=False, blocksize=None, ovr_blocksize=None, overviews="external", windowed=False, intermediate=False, dest="file", existing="no-overwrite", api="layers", data_seed=27, dest_as="Path"),
+    dict(ny=40, nx=50, layout="YX", ns=1, dtype="uint16", nodata=None, crs="EPSG:3857", rotated=False, blocksize=None, ovr_blocksize=None, overviews="default", windowed=False, intermediate=False, dest="file", existing="no-overwrite", api="write_cog", data_seed=28, dest_as="Path"),
     # supplied overviews written under an ambient GDAL configuration that switches directory listing off (C15-5)
     dict(ny=64, nx=80, layout="YX", ns=1, dtype="uint16", nodata=None, crs="EPSG:3857", rotated=False, blocksize=32, ovr_blocksize=None, overviews="external", windowed=False, intermediate=False, dest="file", existing=None, api="write_cog", data_seed=24, nodata_via="attrs", data_kind="random", ambient_env={"GDAL_DISABLE_READDIR_ON_OPEN": "EMPTY_DIR"}),
     dict(ny=48, nx=40, layout="SYX", ns=2, dtype="float32", nodata=-9999, crs="EPSG:4326", rotated=False, blocksize=16, ovr_blocksize=16, overviews="external", windowed=False, intermediate=False, dest="mem", existing=None, api="layers", data_seed=25, nodata_via="attrs", data_kind="random", ambient_env={"GDAL_DISABLE_READDIR_ON_OPEN": "EMPTY_DIR"}),
